@@ -26,6 +26,15 @@ let ccop t = match split ':' t with
   | ["sa"; a; v] -> CCSetAttr (s_of a, ccval v) | ["da"; a] -> CCDelAttr (s_of a) | _ -> CCDict (dop ov t)
 let cspop t = match split ':' t with
   | ["sa"; a; v] -> CSetAttr (s_of a, ov v) | ["da"; a] -> CDelAttr (s_of a) | _ -> CDict (dop (fun x -> s_of (sub1 x)) t)
+let ozi t = if t = "n" then None else Some (zi t)
+let crop t = match split ':' t with
+  | ["set"; s; e; l; u] -> CRSet (ozi s, ozi e, ozi l, ov u) | ["unset"] -> CRUnset
+  | ["units"; u] -> CRAttrUnits (ov u) | ["start"; v] -> CRAttrInt (CRStart, ozi v) | ["stop"; v] -> CRAttrInt (CRStop, ozi v)
+  | ["length"; v] -> CRAttrInt (CRLength, ozi v) | _ -> failwith ("crop " ^ t)
+let waop t = match split ':' t with
+  | ["item"; k; v] -> WASetItem (s_of k, ov v) | ["delitem"; k] -> WADelItem (s_of k) | ["attr"; k; v] -> WASetAttr (s_of k, ov v)
+  | ["type"; v] -> WASetType (s_of v) | ["token"; v] -> WASetToken (ov v) | ["params"; d] -> WASetParams (kvs ov d)
+  | "p" :: rest -> WAParams (dop ov (String.concat ":" rest)) | _ -> failwith ("waop " ^ t)
 let ps s = csv_of_nlist s
 let pl sep l = if l = [] then "~" else String.concat sep (List.map ps l)
 let cat sep f l = if l = [] then "~" else String.concat sep (List.map f l)
@@ -52,6 +61,14 @@ let () = iter_lines (fun line ->
   | "csp" :: init :: ops ->
       let h = kvs s_of init in let st = (h, csp_parse_h h) in
       pruns (cspr_obs st) (cspr_run st (List.map cspop ops))
+  | "cr" :: init :: ops ->
+      let h = kvs s_of init in let st = cr_read h in
+      pruns (crr_obs st) (crr_run (crr_after_obs st) (List.map crop ops))
+  | "wa" :: init :: ops ->
+      let h = kvs s_of init in
+      (match wa_read h with
+       | None -> "unsupported"
+       | Some w -> pruns (war_obs (h, w)) (war_run (h, w) (List.map waop ops)))
   | ["pl"; s] -> "L" ^ pl "/" (parse_list_header (s_of s))
   | ["pd"; s] -> (match parse_dict_header (s_of s) with None -> "unsupported" | Some d -> pcd d)
   | ["dl"; l] -> "S" ^ ps (dump_list (lst '/' l))
